@@ -347,7 +347,9 @@ def check_case(case, col=None):
             # the harness shortens pexpect's waits after each signal to 20 ms (100 ms for stubborn children); on a
             # starved machine a child can need longer to die, and terminate()/close() then give up as documented:
             # such a history is repeated once with a 1.5 s wait before it is reported
-            if v.key not in ('terminate-failed', 'still-alive', 'harness-child-did-not-die') or case.get('_grace'):
+            slow_death = (v.key in ('terminate-failed', 'still-alive', 'harness-child-did-not-die')
+                          or 'Could not terminate the child' in v.what)      # close(): the same giving up, as an exception
+            if not slow_death or case.get('_grace'):
                 raise
             if col is not None:
                 col.count('repeated_with_longer_delayafterterminate')
